@@ -35,7 +35,19 @@ theorem takeUntil_emitOnly (cfg : Sources α) : EmitOnly (takeUntilM (α := α))
       · split <;> simp [act]
       · simp [act]
       · simp [act]
-    · cases n <;> simp [takeUntilM, takeUntilStep, phases, phase, emits, h0, act]
+    · cases n with
+      | next c v =>
+        -- `destination.Complete` first, then `Store(ready, 1)`: the flag is not looked at by the teardown
+        have hr : (takeUntilM (α := α)).react k (.next c v) =
+            [fun s => (s, [.emit (.complete c)]), fun s => ({ s with ready := true }, [])] := by
+          simp [takeUntilM, h0]
+        have hs : takeUntilStep r.st k (.next c v) = ({ r.st with ready := true }, [.complete c]) := by
+          simp [takeUntilStep, h0]
+        rw [hr, hs]
+        simp only [phases, phase, List.foldl_cons, List.foldl_nil, act, emits]
+        exact (emit_setSt (takeUntilM (α := α)) (fun s => { s with ready := true }) (fun _ => rfl) (fun _ => rfl) r (.complete c)).symm
+      | error c e => simp [takeUntilM, takeUntilStep, phases, phase, emits, h0]
+      | complete c => simp [takeUntilM, takeUntilStep, phases, phase, emits, h0]
   inv := by
     intro s k n hk hI
     unfold takeUntilStep
